@@ -60,7 +60,14 @@ class CaseTimeout(Violation):
 CASE_TIMEOUT_S = float(os.environ.get("VERIF_CASE_TIMEOUT", "90"))
 
 
+# set by the alarm handler: the exception it raises may be caught and
+# re-wrapped by the code under test or by a check's own error handling, so
+# the wrappers below ask this flag, not the exception type
+_ALARM = {"fired": False}
+
+
 def _on_alarm(signum, frame):
+    _ALARM["fired"] = True
     raise CaseTimeout("the case did not terminate within %.0f s (normal "
                       "cases take milliseconds); the code under test hangs"
                       % CASE_TIMEOUT_S)
@@ -74,6 +81,7 @@ class case_timer:
 
     def __enter__(self):
         import signal
+        _ALARM["fired"] = False
         self.old = signal.signal(signal.SIGALRM, _on_alarm)
         signal.setitimer(signal.ITIMER_REAL, CASE_TIMEOUT_S * self.factor)
 
@@ -275,10 +283,15 @@ class Ctx:
                 try:
                     with case_timer():
                         check(ctx, case)
-                except CaseTimeout:
+                except (UnsatisfiedAssumption, _Abort):
+                    raise
+                except Exception:
+                    if not _ALARM["fired"]:
+                        raise
                     # time alone never decides: the same case is run again
                     # with six times the budget (a loaded machine or a big
-                    # generated case is not a hang)
+                    # generated case is not a hang).  Whatever the
+                    # interrupted code made of the interruption is dropped.
                     ctx.count("slow_case_rerun")
                     with case_timer(6.0):
                         check(ctx, case)
@@ -302,7 +315,9 @@ class Ctx:
                 try:
                     with case_timer():
                         check(self, case)
-                except CaseTimeout:
+                except Exception:
+                    if not _ALARM["fired"]:
+                        raise
                     self.count("slow_case_rerun")
                     with case_timer(6.0):
                         check(self, case)
@@ -386,7 +401,8 @@ def logged(fn):
             raise _Abort("shrinkcap")
         self.history.append([fn.__name__, to_jsonable(kw)])
         try:
-            with case_timer():
+            # (a rule cannot be run again on its own: three times the budget)
+            with case_timer(3.0):
                 return fn(self, **kw)
         except _Abort:
             raise
@@ -409,7 +425,7 @@ def checked(fn):
         ctx = getattr(self, "_ctx", None)
         state = getattr(self, "_state", None)
         try:
-            with case_timer():
+            with case_timer(3.0):
                 return fn(self)
         except _Abort:
             raise
